@@ -305,7 +305,28 @@ pub fn run(prop: &str, cases: &[String]) -> RunOut {
                 let off: usize = t[5].parse().unwrap();
                 let b = unhex(t[6]);
                 arena.0[off..off + b.len()].copy_from_slice(&b);
-                hist = Some(Hist { t: t[3].into(), l: t[4].into(), offset: off, arena, n: b.len(), shadow: None, cap: 0 });
+                // a starting buffer that already is in the documented layout (LE count <= capacity, padding to the element
+                // alignment, whole elements, aligned data) *is* a list: the shadow vector starts from it
+                let (mut shadow, mut cap0) = (None, 0usize);
+                if prefix_supported(t[4]) {
+                    let (sz, al) = elem_params(t[3]);
+                    let wl = prefix_width(t[4]);
+                    let pad = if al <= 1 || wl % al == 0 { 0 } else { al - wl % al };
+                    let hdr = wl + pad;
+                    let base = arena.0.as_ptr() as usize + off;
+                    if b.len() >= hdr && (base + hdr) % al.max(1) == 0 && (if sz == 0 { b.len() == hdr } else { (b.len() - hdr) % sz == 0 }) {
+                        let cap = if sz == 0 { 0 } else { (b.len() - hdr) / sz };
+                        let mut le = [0u8; 16];
+                        le[..wl].copy_from_slice(&b[..wl]);
+                        let stored = u128::from_le_bytes(le);
+                        if stored <= cap as u128 {
+                            let n = stored as usize;
+                            shadow = Some((0..n).map(|i| b[hdr + i * sz..hdr + (i + 1) * sz].to_vec()).collect::<Vec<_>>());
+                            cap0 = cap;
+                        }
+                    }
+                }
+                hist = Some(Hist { t: t[3].into(), l: t[4].into(), offset: off, arena, n: b.len(), shadow, cap: cap0 });
                 hist_ok = 0; hist_fail = 0; hist_text = line.clone();
                 ("begin".into(), None)
             }
